@@ -33,7 +33,7 @@ class FrameID(Enum):
     RADAR_FRONT = "radar_front"
     RADAR_FRONT_RIGHT = "radar_front_right"
     RADAR_FRONT_LEFT = "radar_front_left"
-    RADAR_BACK = "RADAR_BACK"
+    RADAR_BACK = "radar_back"
     RADAR_BACK_RIGHT = "radar_back_right"
     RADAR_BACK_LEFT = "radar_back_left"
 
@@ -162,9 +162,9 @@ class Visibility(Enum):
             >>> Visibility.from_value("most")
             Visibility.MOST
         """
-        for k, v in cls.__members__.items():
+        for _, v in cls.__members__.items():
             if v == name:
-                return k
+                return v
         return cls.from_alias(name)
 
 
@@ -195,6 +195,7 @@ class SensorModality(Enum):
             >>> SensorModality.from_value("camera")
             SensorModality.CAMERA
         """
-        for k, v in cls.__members__.items():
+        for _, v in cls.__members__.items():
             if v == name:
-                return k
+                return v
+        raise ValueError(f"Unexpected value: {name}")
